@@ -1066,9 +1066,20 @@ def check(case):
             loose = loose or op in MAPOPS
             # the paragraph itself, read directly: the field that was changed and all the others
             compare_records(o, now, phase + ", read directly")
+            # the documented formatting entry point asked field by field BEFORE the next dump (the
+            # last dump saw the paragraph as it was before this edit) ...
+            try:
+                pre = ["%s:%s%s\n" % (k, "" if (not v or v[0] == "\n") else " ", v)
+                       for k, v in ((k, o.get_as_string(k)) for k in o)]
+            except Exception:   # pylint: disable=broad-except
+                pre = None      # the dump below reports it under the 'dumping never fails' clause
             text = dump_or_violation(o, now, phase, labels)
             if text is None:
                 continue
+            # ... is what the dump is made of
+            if pre is not None and "".join(pre) != text:
+                raise Violation("get_as_string-differs-from-dump", "%s: get_as_string() of the fields, asked before "
+                                "the dump, gives %s; dump() gives %s" % (phase, short("".join(pre), 300), short(text, 300)))
             # after a mapping operation: same names wherever they went; the model follows the dump
             cur = check_layout(text, now, phase, any_order=loose)
             loose = False
